@@ -97,7 +97,7 @@ type replayFile struct {
 var sanitizeRe = regexp.MustCompile(`[^A-Za-z0-9_.#-]+`)
 
 func writeReplay(eng *engine, id string, j job, work string) string {
-	dir := filepath.Join(verifDir, "replays", id)
+	dir := filepath.Join(outDir(), "replays", id)
 	os.MkdirAll(dir, 0755)
 	fn := sanitizeRe.ReplaceAllString(j.o.name, "_")
 	if len(fn) > 150 {
